@@ -27,7 +27,7 @@ PROPS = {
     "C01": {"level": "model_checking",
             "quick": lambda s: gen.fam_data(s, 64) + gen.fam_life(s, 4, policies=("lazy", "slowsrv", "slowcli"), causes=("close", "ctxcancel"), fcs=("fc",))
                                + gen.fam_cancel(s, 4, policies=("lazy", "slowsrv", "slowcli"), fcs=("fc",))
-                               + gen.fam_gates(s, 3, gates=["cli.alloc", "cli.new.sent", "car.sent.c2s.new", "car.sent.c2s.msg", "car.sent.s2c.msg", "srv.watch.fired"], faults=("none", "cancel")),
+                               + gen.fam_gates(s, 3, gates=["cli.alloc", "cli.new.sent", "car.sent.c2s.new", "car.sent.c2s.msg", "car.sent.s2c.msg", "srv.watch.fired"], faults=("none", "cancel@park", "cancel")),
             "thorough": lambda s: gen.fam_data(s, 600, big=True) + gen.fam_life(s, 0) + gen.fam_cancel(s, 0) + gen.fam_gates(s, 0)},
     "C13": {"level": "model_checking",
             "quick": lambda s: gen.fam_data(s, 48) + gen.fam_cancel(s, 4, policies=("eager", "slowcli"), fcs=("fc",)) + gen.fam_indep(s, 4, policies=("random",)),
@@ -39,11 +39,11 @@ PROPS = {
             "quick": lambda s: gen.fam_life(s, 5),
             "thorough": lambda s: gen.fam_life(s, 0) + gen.fam_gates(s, 0, faults=("close",))},
     "C07": {"level": "model_checking", "also": ["C16_NoSuccessOnWrongCount"], "hang": True,
-            "quick": lambda s: gen.fam_cancel(s, 5) + gen.fam_gates(s, 4, gates=["cli.alloc", "cli.watch.fired", "cli.cancel.finished", "cli.cancel.emit", "srv.finish.cancelled", "srv.close.emit", "car.sent.c2s.cancel"], faults=("cancel",)),
+            "quick": lambda s: gen.fam_cancel(s, 5) + gen.fam_gates(s, 4, gates=["cli.alloc", "cli.watch.fired", "cli.cancel.finished", "cli.cancel.emit", "srv.finish.cancelled", "srv.close.emit", "car.sent.c2s.cancel"], faults=("cancel@park", "cancel")),
             "thorough": lambda s: gen.fam_cancel(s, 0) + gen.fam_gates(s, 0, faults=("cancel",))},
     "C03": {"level": "model_checking", "hang": True,
             "quick": lambda s: gen.fam_indep(s, 8) + gen.fam_shutdown(s, 3, policies=("eager",))
-                               + gen.fam_gates(s, 4, gates=["cli.alloc", "car.sent.c2s.new", "srv.reject.emit"], faults=("cancel",)),
+                               + gen.fam_gates(s, 4, gates=["cli.alloc", "car.sent.c2s.new", "srv.reject.emit"], faults=("cancel@park", "cancel")),
             "thorough": lambda s: sum((gen.fam_indep(s + i, 0) for i in range(8)), []) + gen.fam_shutdown(s, 0) + gen.fam_gates(s, 0, faults=("cancel",))},
     "C14": {"level": "model_checking", "snap": True, "hang": True,
             "quick": lambda s: gen.fam_life(s, 3, policies=("eager", "slowcli")) + gen.fam_cancel(s, 3, policies=("lazy", "slowcli")) + gen.fam_indep(s, 3, policies=("random",)),
